@@ -59,6 +59,9 @@ def is_array_kind(kind):
     return kind.endswith("-array") or (kind.startswith("extporous") and kind != "extporous-ff")
 
 
+LAY = [0]
+
+
 def run_history(darsia, rng, tid, kind, dim, hist, h, payload, as_image, use_voxel_size, mixed=None):
     n = NATIVE[dim]
     res = dict(RES)
@@ -94,6 +97,11 @@ def run_history(darsia, rng, tid, kind, dim, hist, h, payload, as_image, use_vox
         else:
             payload, as_image = payload0, as_image0
         nsl = {"scalar": (), "vector": (2,), "series": (3,), "vseries": (2, 2)}[payload]
+        # (every fourth call: trailing axes of length one - a series with a single time step, one component: the result keeps
+        # one entry per time step and component, i.e. these axes)
+        LAY[0] += 1
+        if nsl and LAY[0] % 4 == 0:
+            nsl = tuple(1 for _ in nsl)
         # field: constant on the coarsest partition, per slice
         nslices = int(np.prod(nsl)) if nsl else 1
         # ... or, every other call, an arbitrary field at the resolution of the call (the sum of data times effective volume
@@ -134,9 +142,12 @@ def run_history(darsia, rng, tid, kind, dim, hist, h, payload, as_image, use_vox
             ev.append(e)
             continue
         vals = np.atleast_1d(np.asarray(val, dtype=float)).ravel()
+        if tuple(np.shape(val)) != tuple(nsl):
+            # the layout of the result: one entry per time step and component, shaped like the trailing axes of the data
+            vals = np.full(max(1, len(vals)) + 1, np.nan)
         q = []
         for v in vals:
-            k = quantize_int(v / unit, 1e-6)
+            k = quantize_int(v / unit, 1e-6) if np.isfinite(v) else None
             q.append(BADINT if k is None else k)
         e["val"] = q
         ev.append(e)
